@@ -8,7 +8,11 @@
     - nil-able slices ([var x []int] that is compared with nil) are [option (list Z)]:
       [nilable_of_keys l] is the nil-ness of the result of go-sortedmap's [Keys()] (nil exactly when the
       map is empty: keys.go returns nil when boundsIdxSearch finds no values), [nilable_get] reads such a
-      slice where a plain []int is expected (a nil slice is an empty slice for len / range / index). *)
+      slice where a plain []int is expected (a nil slice is an empty slice for len / range / index).
+    - [imap]: a Go [map[int]int] that is only stored into and looked up (no iteration, delete or len) as an
+      association list: [m[k] = v] is [im_set] (the value of a present key is replaced, an absent key is added),
+      [v, ok := m[k]] is [im_get] (the zero value when absent) and [im_has].
+    - [go_enum l]: the pairs [for i, x := range l] gives to [(i, x)]. *)
 From Coq Require Import ZArith List Bool.
 From Texel Require Import Prelude.Base.
 Import ListNotations.
@@ -40,3 +44,23 @@ Definition nilable_get (o : option (list Z)) : list Z :=
 
 Definition is_nil (o : option (list Z)) : bool :=
   match o with None => true | Some _ => false end.
+
+Definition imap := list (Z * Z).
+
+Fixpoint im_find (m : imap) (k : Z) : option Z :=
+  match m with
+  | [] => None
+  | (k', v) :: r => if k =? k' then Some v else im_find r k
+  end.
+
+Definition im_get (m : imap) (k : Z) : Z := match im_find m k with Some v => v | None => 0 end.
+
+Definition im_has (m : imap) (k : Z) : bool := match im_find m k with Some _ => true | None => false end.
+
+Fixpoint im_set (m : imap) (k v : Z) : imap :=
+  match m with
+  | [] => [(k, v)]
+  | (k', v') :: r => if k =? k' then (k', v) :: r else (k', v') :: im_set r k v
+  end.
+
+Definition go_enum {A} (l : list A) : list (Z * A) := combine (go_indices l) l.
